@@ -71,6 +71,12 @@ def cases(tier, seed):
         for t in (('AND', ('OR', ('AND', a, b), ('IMPLIES', c, d)), ('OR', ('NOT', ('AND', e, f), None), ('EQUIVALENCE', a, d))),
                   ('IMPLIES', ('AND', ('OR', a, b), ('OR', c, d)), ('OR', ('AND', e, f), ('AND', d, ('NOT', a, None))))):
             yield ('SK', (car[0], (('c1', t),)))
+    for m in rt.collision_models():
+        if in_fragment(m) and not any('"' in n for n in sh.names(m)):
+            yield ('SK', m)
+    for t1 in cm.k1()[::5]:
+        for t2 in cm.k1()[::5]:
+            yield ('SK', cm.on_carrier([t1, t2]))
     carriers1 = [m for m in sp.structures_upto(3) if in_fragment(m)]
     carriers2 = [m for m in sp.structures_upto(2 if tier == 'quick' else 3) if in_fragment(m)]
     seen = set()
